@@ -25,4 +25,6 @@ func verifGateName(_ string, _ string) {}
 
 func verifRegister(_ *Process) {}
 
+func verifWg(int, int) {}
+
 func verifBackoff(_ *Process, _ time.Duration) (time.Duration, bool) { return 0, false }
